@@ -33,7 +33,9 @@ def evo_op(r, sess, kind=None):
     elif kind == "dupwell" and n > 1:
         wells[r.randrange(1, n)] = list(wells[0])
     elif kind == "twocol" and spec["cols"] > 1 and n > 1:
-        wells[-1] = [wells[-1][0], (col + 1) % spec["cols"]]
+        # a well of another column: last, first, or in the middle of the list
+        j = r.choice([n - 1, 0, n // 2])
+        wells[j] = [wells[j][0], (col + 1) % spec["cols"]]
     # volumes: feasible for the observed state
     occ = {}
     for w in wells:
@@ -140,6 +142,11 @@ def targeted_programs():
         ("gaps-perm", W([7, 2, 5]), T([8, 1, 4]), {"k": "l", "x": [3, 1, 2]}),
         ("all-eight", W(list(range(8)), 2), T(list(range(1, 9))), {"k": "l", "x": [1, 2, 3, 4, 5, 6, 7, 8]}),
         ("two-columns", {"k": "l", "x": [[0, 0], [1, 1]]}, T([1, 2]), {"k": "s", "x": 5}),
+        ("foreign-column-in-the-middle", {"k": "l", "x": [[0, 0], [0, 1], [1, 0]]}, T([1, 2, 3]), {"k": "l", "x": [10, 20, 30]}),
+        ("foreign-column-first", {"k": "l", "x": [[0, 1], [1, 0], [2, 0]]}, T([1, 2, 3]), {"k": "l", "x": [10, 20, 30]}),
+        ("zero-in-the-middle", W([0, 1, 2]), T([1, 2, 3]), {"k": "l", "x": [10, 0, 30]}),
+        ("zero-first", W([2, 4, 6]), T([2, 4, 6]), {"k": "l", "x": [0, 5, 7]}),
+        ("all-zero", W([0, 1]), T([1, 2]), {"k": "s", "x": 0}),
         ("oversized-first", W([0, 1, 2]), T([1, 2, 3]), {"k": "l", "x": [951, 2, 3]}),
         ("oversized-middle", W([0, 1, 2]), T([1, 2, 3]), {"k": "l", "x": [1, 1000, 3]}),
         ("oversized-last", W([0, 1, 2]), T([1, 2, 3]), {"k": "l", "x": [1, 2, 951]}),
